@@ -93,7 +93,26 @@ FAMILY = [
     "SELECT `a.b` + 1 AS s, coalesce(`c d`, `a.b`) AS v FROM int1.t3",
     "SELECT INT1.t1.a FROM INT1.t1",
     "SELECT a FROM Int1.t1 WHERE Int1.t1.b = 1",
+    # CTEs named like tables (a CTE is not visible in its own body nor in earlier ones: the name there means the real table)
+    "WITH t1 AS (SELECT * FROM int1.t1 WHERE a > 1) SELECT * FROM t1",
+    "WITH t1 AS (SELECT a, id FROM int1.t1 WHERE a > 1) SELECT t1.a, t2.c FROM t1 JOIN int1.t2 ON t2.id = t1.id",
+    "WITH w AS (SELECT * FROM int1.t2), t2 AS (SELECT * FROM w WHERE c > 0) SELECT * FROM t2",
 ]
+# the same kind of statement written WITHOUT the integration qualifier, planned with that integration as the default namespace
+UNQUALIFIED = [
+    "SELECT a FROM t1 WHERE a > 1",
+    "SELECT t1.a, t2.c FROM t1 JOIN t2 ON t1.id = t2.id",
+    "SELECT t1.a, t2.c FROM t1 JOIN int1.t2 ON t1.id = t2.id",
+    "SELECT a FROM t1 WHERE a IN (SELECT c FROM t2)",
+    "SELECT a FROM t1 UNION SELECT c FROM t2",
+    "SELECT s.a FROM (SELECT a, id FROM t1) AS s WHERE s.a > 0",
+    "WITH w AS (SELECT a, id FROM t1) SELECT w.a FROM w WHERE w.a > 1",
+    "WITH t1 AS (SELECT * FROM t1 WHERE a > 1) SELECT * FROM t1",
+    "WITH t1 AS (SELECT a, id FROM t1 WHERE a > 1) SELECT a FROM t1 WHERE id > 0",
+    "WITH w AS (SELECT * FROM t2), t2 AS (SELECT * FROM w WHERE c > 0) SELECT * FROM t2",
+    "WITH t2 AS (SELECT * FROM t2 WHERE c > 0) SELECT t1.a, t2.c FROM t1 JOIN t2 ON t1.id = t2.id",
+]
+FAMILY = FAMILY + UNQUALIFIED
 
 
 def single_fetch(plan):
@@ -108,7 +127,10 @@ def check_member(sql, R, D, timeout_ms=120000):
     info = {'sql': sql}
     orig = parse_sql(sql, 'mindsdb')
     try:
-        plan = plan_query(parse_sql(sql, 'mindsdb'), **PL.catalog())
+        kw = PL.catalog()
+        if sql in UNQUALIFIED:
+            kw['default_namespace'] = 'int1'
+        plan = plan_query(parse_sql(sql, 'mindsdb'), **kw)
     except (PlanningException, NotImplementedError) as e:
         return dict(info, status='rejected', reason='%s: %s' % (type(e).__name__, str(e)[:100]))
     if not single_fetch(plan):
